@@ -1344,6 +1344,8 @@ def run(ctx: common.Ctx):
     check_model_sanity(ctx)
     check_traversals(ctx, t)
     check_collisions(ctx, t)
+    from . import c13_flags
+    c13_flags.check_flags(ctx)
     check_transforms(ctx, t)
     check_pair_mappers(ctx)
     check_function_bodies(ctx, t)
@@ -1352,6 +1354,8 @@ def run(ctx: common.Ctx):
     check_edge_ladders(ctx, t)
     from . import c13_extra_args
     c13_extra_args.check_extra_args(ctx, build_graph, nested_specs)
+    from . import c13_collectors
+    c13_collectors.check_collectors(ctx, t)
     for th in THEOREMS[:4]:
         ctx.sample({"theorem": th})
     ctx.broken = sorted(set(ctx.broken))[:40]
@@ -1380,10 +1384,13 @@ def replay(ctx, path):
               f"nodes_with_method_calls={len(log.method_calls)} visited_more_than_once={multi}")
         print(f"expected: no error, {len(v.nodes)} or fewer nodes each visited exactly once")
         return 1 if (err is not None or multi) else 0
-    if r.get("check") in ("function-bodies", "result-sharing", "edge-replacement", "edge-ladder"):
+    if r.get("check") in ("function-bodies", "result-sharing", "edge-replacement", "edge-ladder", "flags", "collectors"):
+        from . import c13_collectors, c13_flags
         sub = common.Ctx(prop=ctx.prop, tier=ctx.tier, seed=ctx.seed)
         {"function-bodies": check_function_bodies, "result-sharing": check_result_sharing,
-         "edge-replacement": check_edge_replacement, "edge-ladder": check_edge_ladders}[r["check"]](sub, t)
+         "edge-replacement": check_edge_replacement, "edge-ladder": check_edge_ladders,
+         "flags": lambda s_, t_: c13_flags.check_flags(s_),
+         "collectors": c13_collectors.check_collectors}[r["check"]](sub, t)
         hits = [v_ for v_ in sub.violations if v_["signature"] == r.get("signature")] + \
             ([r["signature"]] if r.get("signature") in sub.known_hit else [])
         print("observed on the current tree:", "still violated" if hits else "no longer violated")
